@@ -73,6 +73,9 @@ pub fn timing_world(topo: Topology, ctype: CType, cltv_delta: u16, fee_base_msat
 		deferred: false,
 		connect_style: 0,
 		node_styles: styles.to_vec(),
+		node_delays: vec![],
+		node_tweaks: vec![],
+		chan_policies: vec![],
 	}
 }
 
